@@ -161,6 +161,41 @@ fn history_case<S: SetApi>(
             w.fail(&format!("{class_prefix}other-key-changed"), &case, &format!("op {i}"));
         }
     }
+    // C08 (global): a timely history with purges shows the same live keys as without
+    if !purge_at.is_empty() && stamps_distinct {
+        let mut timely = true;
+        let mut maxtick = 0u64;
+        for o in ops {
+            let t = tick_of(o.t);
+            if t < 1 || (maxtick >= t + W_TICKS) {
+                timely = false;
+            }
+            maxtick = maxtick.max(t);
+        }
+        if timely {
+            w.stats.hit("hist_timely_with_purges");
+            let mut u = S::default();
+            for o in ops {
+                if o.del { u.del(o.src, o.key, o.t); } else { u.ins(o.src, o.key, o.t); }
+            }
+            if u.contents().0 != s.contents().0 {
+                w.fail(&format!("{class_prefix}purging-changed-the-live-result"), &case,
+                       &format!("with purges {:?} without {:?}", s.contents().0, u.contents().0));
+            }
+            let mut lww: BTreeMap<u64, Op> = BTreeMap::new();
+            for o in ops {
+                let e = lww.entry(o.key).or_insert(*o);
+                if ts(e.t) < ts(o.t) { *e = *o; }
+            }
+            for k in keys {
+                let expect = lww.get(k).and_then(|o| if o.del { None } else { Some(o.t) });
+                if s.get_(*k) != expect {
+                    w.fail(&format!("{class_prefix}purging-replica-not-lww"), &case,
+                           &format!("key {:x}: get={:?} expected={:?}", k, s.get_(*k), expect));
+                }
+            }
+        }
+    }
     if any_rejected {
         w.stats.hit("hist_with_rejection");
     }
@@ -332,6 +367,321 @@ fn mode_c04(w: &mut CaseWriter, args: &Args, rng: &mut Rng) {
     w.stats.add("exhaustive_histories", n_ex);
 }
 
+fn mode_c08(w: &mut CaseWriter, args: &Args, rng: &mut Rng) {
+    // stamps spanning ~3 forgiveness periods, two origins
+    let base = 60_000_000u64;
+    // per origin: stamps one forgiveness period (+1 tick) apart, plus two in between
+    let mut stamps: Vec<u64> = Vec::new();
+    let steps = if args.thorough() { 4 } else { 3 };
+    for j in 0..steps {
+        for node in [1u64, 2] {
+            stamps.push(mk(base + j * (W_TICKS + 1) + node * 3, j % 2, node));
+        }
+    }
+    stamps.push(mk(base + W_TICKS / 2, 0, 1));
+    stamps.push(mk(base + W_TICKS + W_TICKS / 2, 0, 2));
+    stamps.sort();
+    let keys = [1u64, 2];
+    let mut n_ex = 0u64;
+    let maxlen = if args.thorough() { 4 } else { 3 };
+    for nsrc in [1usize, 2] {
+        // ascending-by-time multisets (timely arrival) and all their source assignments,
+        // with purges after every subset of positions
+        let n = stamps.len();
+        for len in 1..=maxlen {
+            let mut idx = vec![0usize; len];
+            'outer: loop {
+                // strictly increasing stamp indices = timely arrival order
+                let distinct = (0..len).all(|x| (0..x).all(|y| idx[x] != idx[y]));
+                let ascending = idx.windows(2).all(|p| p[0] < p[1]);
+                if distinct && (ascending || len <= 2 || (idx.iter().sum::<usize>() + len) % 5 == 0) {
+                    let nkinds = 1u32 << len; // insert/delete per op
+                    for kinds in 0..nkinds {
+                        for keymask in 0..(1u32 << len) {
+                            let srcs_n = if nsrc == 2 { 1u32 << len } else { 1 };
+                            for srcmask in 0..srcs_n {
+                                // thin out the product in the quick tier
+                                if !args.thorough() && len == 3 && (kinds + keymask * 3 + srcmask * 5 + idx[0] as u32) % 7 != 0 {
+                                    continue;
+                                }
+                                let ops: Vec<Op> = (0..len)
+                                    .map(|i| Op {
+                                        del: (kinds >> i) & 1 == 1,
+                                        src: ((srcmask >> i) & 1) as usize,
+                                        key: keys[((keymask >> i) & 1) as usize],
+                                        t: stamps[idx[i]],
+                                    })
+                                    .collect();
+                                for pm in 1..(1u32 << (len + 1)) {
+                                    let purge_at: Vec<usize> = (0..=len).filter(|i| (pm >> i) & 1 == 1).collect();
+                                    history_case_n(w, nsrc, &ops, &purge_at, &keys, &stamps, "");
+                                    n_ex += 1;
+                                }
+                            }
+                        }
+                    }
+                }
+                let mut p = len;
+                loop {
+                    if p == 0 { break 'outer; }
+                    p -= 1;
+                    idx[p] += 1;
+                    if idx[p] < n { break; }
+                    idx[p] = 0;
+                }
+            }
+        }
+    }
+    // random histories: mostly timely, sometimes late arrivals (model comparison only), purges anywhere
+    let n_random = if args.thorough() { 40_000 } else { 4_000 };
+    for _ in 0..n_random {
+        let nsrc = 1 + rng.below(2) as usize;
+        let len = 2 + rng.below(14) as usize;
+        let mut tick = *rng.pick(&[1u64, 2, 300, base]);
+        let mut ops = Vec::new();
+        let mut probes = Vec::new();
+        let keys6 = [1u64, 2, 3, 4, 5, 6];
+        for _ in 0..len {
+            tick += *rng.pick(&[0u64, 1, 7, W_TICKS / 3, W_TICKS - 1, W_TICKS, W_TICKS + 1, 2 * W_TICKS]);
+            let late = if rng.chance(1, 8) { rng.below(2 * W_TICKS) } else { rng.below(W_TICKS / 2) };
+            let t = mk(tick.saturating_sub(late).max(1), rng.below(3), 1 + rng.below(3));
+            if ops.iter().any(|o: &Op| o.t == t) { continue; }
+            probes.push(t);
+            ops.push(Op { del: rng.chance(1, 2), src: rng.below(nsrc as u64) as usize, key: *rng.pick(&keys6), t });
+        }
+        let purge_at: Vec<usize> = (0..=ops.len()).filter(|_| rng.chance(1, 3)).collect();
+        probes.truncate(10);
+        history_case_n(w, nsrc, &ops, &purge_at, &keys6, &probes, "");
+    }
+    // structured "purge-rich" histories: phase 1 puts/deletes; phase 2 (more than one
+    // period later) every origin is heard again on every source, so the cut-off passes the
+    // phase-1 deletes; purge; phase 3 new operations and (late) re-deliveries of phase-1
+    // operations; purge again.
+    let n_rich = if args.thorough() { 40_000 } else { 4_000 };
+    for _ in 0..n_rich {
+        let nsrc = 1 + rng.below(2) as usize;
+        let keys6 = [1u64, 2, 3, 4, 5, 6];
+        let norig = 1 + rng.below(3);
+        let b0 = *rng.pick(&[1u64, 5, base]);
+        let mut ops: Vec<Op> = Vec::new();
+        let mut purge_at: Vec<usize> = Vec::new();
+        let n1 = 1 + rng.below(5);
+        for i in 0..n1 {
+            let t = mk(b0 + i * 3 + rng.below(3), rng.below(2), 1 + rng.below(norig));
+            if ops.iter().any(|o| o.t == t) { continue; }
+            ops.push(Op { del: rng.chance(3, 5), src: rng.below(nsrc as u64) as usize, key: *rng.pick(&keys6), t });
+        }
+        let phase1 = ops.clone();
+        if rng.chance(1, 3) { purge_at.push(ops.len()); }
+        let gap = *rng.pick(&[W_TICKS - 5, W_TICKS + 20, W_TICKS + 20, 2 * W_TICKS]);
+        let mut c = 0u64;
+        for origin in 1..=norig {
+            for src in 0..nsrc {
+                if rng.chance(1, 8) { continue; } // sometimes one (source, origin) stays silent
+                c += 1;
+                let t = mk(b0 + gap + c, 0, origin);
+                ops.push(Op { del: rng.chance(1, 4), src, key: *rng.pick(&keys6), t });
+            }
+        }
+        purge_at.push(ops.len());
+        let n3 = rng.below(4);
+        for i in 0..n3 {
+            if rng.chance(1, 2) && !phase1.is_empty() {
+                // late re-delivery of a phase-1 operation (same stamp): duplicates are allowed
+                // in the model comparison; the oracle skips LWW when stamps repeat
+                let o = *rng.pick(&phase1);
+                ops.push(Op { src: rng.below(nsrc as u64) as usize, ..o });
+            } else {
+                let t = mk(b0 + gap + 50 + i, 1, 1 + rng.below(norig));
+                ops.push(Op { del: rng.chance(1, 2), src: rng.below(nsrc as u64) as usize, key: *rng.pick(&keys6), t });
+            }
+        }
+        if rng.chance(1, 2) { purge_at.push(ops.len()); }
+        let mut probes: Vec<u64> = ops.iter().map(|o| o.t).collect();
+        probes.sort(); probes.dedup(); probes.truncate(10);
+        history_case_n(w, nsrc, &ops, &purge_at, &keys6, &probes, "");
+    }
+    w.stats.add("exhaustive_histories", n_ex);
+}
+
+/// C05: pairs of replicas built from one history, diff, repair in both batch orders and
+/// interleaved, and the symmetric exchange.
+fn mode_c05(w: &mut CaseWriter, args: &Args, rng: &mut Rng) {
+    let base = 70_000_000u64;
+    let keys = [1u64, 2, 3];
+    let pool_in: Vec<u64> = vec![
+        mk(base, 0, 1), mk(base, 1, 1), mk(base + 3, 0, 1), mk(base, 0, 2), mk(base + 3, 0, 2), mk(base + 4, 1, 2),
+    ];
+    let pool_out: Vec<u64> = vec![
+        mk(base, 0, 1), mk(base + W_TICKS, 0, 1), mk(base + W_TICKS + 1, 1, 1), mk(base + 1, 0, 2),
+        mk(base + 2 * W_TICKS, 0, 2), mk(base + 2 * W_TICKS + 1, 0, 2),
+    ];
+    let mut n_pairs = 0u64;
+    // bounded-exhaustive: one history H of <= 3 ops over (kind x key x stamp index ascending);
+    // replica A applies a subset, replica B applies a subset (origin order preserved)
+    let hl = if args.thorough() { 4 } else { 3 };
+    for (pool, label) in [(&pool_in, "in"), (&pool_out, "out")] {
+        let n = pool.len();
+        for len in 1..=hl {
+            let mut idx = vec![0usize; len];
+            'outer: loop {
+                if idx.windows(2).all(|p| p[0] < p[1]) {
+                    for kinds in 0..(1u32 << len) {
+                        for keysel in 0..3u32.pow(len as u32) {
+                            if !args.thorough() && len == 3 && (kinds + keysel) % 2 == 1 { continue; }
+                            let mut ks = keysel;
+                            let h: Vec<Op> = (0..len).map(|i| {
+                                let k = keys[(ks % 3) as usize]; ks /= 3;
+                                Op { del: (kinds >> i) & 1 == 1, src: 0, key: k, t: pool[idx[i]] }
+                            }).collect();
+                            for suba in 0..(1u32 << len) {
+                                for subb in 0..(1u32 << len) {
+                                    let a: Vec<Op> = (0..len).filter(|i| (suba >> i) & 1 == 1).map(|i| h[i]).collect();
+                                    let b: Vec<Op> = (0..len).filter(|i| (subb >> i) & 1 == 1).map(|i| h[i]).collect();
+                                    pair_case(w, &a, &b, pool, &keys, label == "in");
+                                    n_pairs += 1;
+                                }
+                            }
+                        }
+                    }
+                }
+                let mut p = len;
+                loop {
+                    if p == 0 { break 'outer; }
+                    p -= 1;
+                    idx[p] += 1;
+                    if idx[p] < n { break; }
+                    idx[p] = 0;
+                }
+            }
+        }
+    }
+    // random larger pairs, replicas may also have purged
+    let n_random = if args.thorough() { 30_000 } else { 3_000 };
+    for _ in 0..n_random {
+        let spread = *rng.pick(&[50u64, W_TICKS - 1, 3 * W_TICKS]);
+        let len = 2 + rng.below(12) as usize;
+        let keys8 = [1u64, 2, 3, 4, 5, 6, 7, 8];
+        let mut h: Vec<Op> = Vec::new();
+        for _ in 0..len {
+            let t = mk(base + rng.below(spread), rng.below(2), 1 + rng.below(3));
+            if h.iter().any(|o| o.t == t) { continue; }
+            h.push(Op { del: rng.chance(2, 5), src: rng.below(2) as usize, key: *rng.pick(&keys8), t });
+        }
+        h.sort_by_key(|o| o.t);
+        let a: Vec<Op> = h.iter().filter(|_| rng.chance(2, 3)).cloned().collect();
+        let b: Vec<Op> = h.iter().filter(|_| rng.chance(2, 3)).cloned().collect();
+        let probes: Vec<u64> = h.iter().map(|o| o.t).take(12).collect();
+        pair_case(w, &a, &b, &probes, &keys8, spread < W_TICKS);
+    }
+    w.stats.add("pairs", n_pairs);
+}
+
+fn pair_case(w: &mut CaseWriter, a_ops: &[Op], b_ops: &[Op], probes: &[u64], _keys: &[u64], within: bool) {
+    type S = OrSWotSet<2>;
+    let mut a = S::default();
+    let mut b = S::default();
+    for o in a_ops { if o.del { a.del(o.src, o.key, o.t); } else { a.ins(o.src, o.key, o.t); } }
+    for o in b_ops { if o.del { b.del(o.src, o.key, o.t); } else { b.ins(o.src, o.key, o.t); } }
+    let (m, r) = a.diff_(&b);
+    let (m2, r2) = b.diff_(&a);
+    // tokens: build A in set 0, B in set 1; diff; repair copies in sets 2 and 3 (both batch
+    // orders); then the symmetric exchange
+    let mut toks: Vec<String> = vec!["@0".into()];
+    toks.extend(a_ops.iter().map(|o| o.tok()));
+    toks.push("@1".into());
+    toks.extend(b_ops.iter().map(|o| o.tok()));
+    toks.push("@0".into());
+    toks.push("F:1".into());
+    toks.push(probes_tok(probes));
+    let rem: Vec<Op> = r.iter().map(|(k, t)| Op { del: true, src: 1, key: *k, t: *t }).collect();
+    let modi: Vec<Op> = m.iter().map(|(k, t)| Op { del: false, src: 1, key: *k, t: *t }).collect();
+    // set 2 := A then removals, modifications ; set 3 := A then modifications, removals
+    for (set, first, second) in [(2, &rem, &modi), (3, &modi, &rem)] {
+        toks.push(format!("@{set}"));
+        toks.extend(a_ops.iter().map(|o| o.tok()));
+        toks.extend(first.iter().map(|o| o.tok()));
+        toks.extend(second.iter().map(|o| o.tok()));
+        toks.push("F:1".into());
+        toks.push(probes_tok(probes));
+    }
+    // symmetric: B applies its difference against A (removals first) in place
+    toks.push("@1".into());
+    toks.push("F:0".into());
+    toks.extend(r2.iter().map(|(k, t)| Op { del: true, src: 1, key: *k, t: *t }.tok()));
+    toks.extend(m2.iter().map(|(k, t)| Op { del: false, src: 1, key: *k, t: *t }.tok()));
+    toks.push(probes_tok(probes));
+    let case = format!("seq 2 0 {}", toks.join(" "));
+    let tv: Vec<&str> = toks.iter().map(|s| s.as_str()).collect();
+    let res = no_panic(|| interpret::<S>(&tv)).unwrap_or_else(|| "panic".into());
+    w.case(&case, &res);
+    if !m.is_empty() || !r.is_empty() { w.stats.hit("pair_nonempty_diff"); }
+
+    // ---- oracle (independent of the model) ----
+    // (1) exactness of diff(a, b)
+    let (be, bd) = b.contents();
+    let mut want_m: Pairs = Vec::new();
+    let mut want_r: Pairs = Vec::new();
+    for (list, out) in [(&be, &mut want_m), (&bd, &mut want_r)] {
+        for (k, t) in list.iter() {
+            let wanted = match view_of(&a, *k) {
+                Some((u, _)) => ts(u) < ts(*t),
+                None => a.will(PROBE_KEY, *t), // not before a's cut-off
+            };
+            if wanted { out.push((*k, *t)); }
+        }
+    }
+    want_m.sort(); want_r.sort();
+    if want_m != m || want_r != r {
+        w.fail("diff-not-exact", &case, &format!("diff=({:?},{:?}) expected=({:?},{:?})", m, r, want_m, want_r));
+    }
+    // (2) one exchange repairs, in both batch orders and an interleaved order, when no
+    //     listed operation is refused at its arrival
+    let orders: Vec<Vec<Op>> = {
+        let mut v = vec![[rem.clone(), modi.clone()].concat(), [modi.clone(), rem.clone()].concat()];
+        let mut inter = Vec::new();
+        let (mut i, mut j) = (0, 0);
+        while i < rem.len() || j < modi.len() {
+            if i < rem.len() { inter.push(rem[i]); i += 1; }
+            if j < modi.len() { inter.push(modi[j]); j += 1; }
+        }
+        v.push(inter);
+        v
+    };
+    let mut a_repaired: Option<S> = None;
+    for ord in &orders {
+        let mut x = a.clone();
+        let mut all_accepted = true;
+        for o in ord {
+            if !x.will(PROBE_KEY, o.t) { all_accepted = false; }
+            if o.del { x.del(o.src, o.key, o.t); } else { x.ins(o.src, o.key, o.t); }
+        }
+        if all_accepted {
+            w.stats.hit("repair_all_accepted");
+            let (m3, r3) = x.diff_(&b);
+            if !m3.is_empty() || !r3.is_empty() {
+                w.fail("exchange-does-not-repair", &case, &format!("left over ({:?},{:?}) after {:?}", m3, r3, ord.iter().map(|o| o.tok()).collect::<Vec<_>>()));
+            }
+            a_repaired = Some(x);
+        } else {
+            w.stats.hit("repair_with_refusal");
+        }
+    }
+    // (3) symmetric exchange: identical contents when nothing either holds is before the
+    //     other's cut-off (guaranteed within one forgiveness period)
+    if within {
+        if let Some(x) = a_repaired {
+            let mut y = b.clone();
+            for (k, t) in &r2 { y.del(1, *k, *t); }
+            for (k, t) in &m2 { y.ins(1, *k, *t); }
+            if x.contents() != y.contents() {
+                w.fail("mutual-repair-disagrees", &case, &format!("a'={:?} b'={:?}", x.contents(), y.contents()));
+            }
+            w.stats.hit("mutual_repair_checked");
+        }
+    }
+}
+
 fn permute(p: &mut Vec<usize>, k: usize, f: &mut dyn FnMut(&[usize])) {
     if k == p.len() {
         f(p);
@@ -397,6 +747,8 @@ fn main() {
     }
     match mode.as_str() {
         "c04" => mode_c04(&mut w, &args, &mut rng),
+        "c08" => mode_c08(&mut w, &args, &mut rng),
+        "c05" => mode_c05(&mut w, &args, &mut rng),
         _ => panic!("unknown mode"),
     }
     w.finish(&[]);
